@@ -22,7 +22,86 @@ THEOREMS = [
     "O2P.Gate.soundB_iff",
     "O2P.Gate.exactB_iff",
     "O2P.Gate.family_plain",
+    "O2P.Gate.cover_spec",
 ]
+
+
+def cover_part(ctx: Ctx, quick: bool) -> None:
+    """get_weighted_cover (tel2puml/utils.py): the real function's answer must be one of the outcomes of the Lean
+    model (all choices of `max` among equal candidates), and must itself satisfy what cover_spec proves of them"""
+    r = ctx.rng
+    inputs = []
+    for _ in range(1500 if quick else 20000):
+        n = r.choice([2, 3, 3, 4, 4, 5, 6])
+        uni = list("abcdef"[:n])
+        kind = r.random()
+        sets: list[list[str]] = []
+        if kind < 0.5:
+            # outcomes of an OR over AND groups: a partition of the universe, unions of its blocks
+            blocks: list[list[str]] = []
+            for x in uni:
+                if blocks and r.random() < 0.4:
+                    r.choice(blocks).append(x)
+                else:
+                    blocks.append([x])
+            for _ in range(r.choice([2, 3, 5, 8])):
+                pick = [b for b in blocks if r.random() < 0.5] or [r.choice(blocks)]
+                sets.append(sorted(x for b in pick for x in b))
+            if r.random() < 0.3:
+                sets.append(sorted(r.sample(uni, r.randrange(1, n + 1))))   # one observation that fits no partition
+        else:
+            for _ in range(r.choice([1, 2, 3, 5, 8])):
+                sets.append(sorted(r.sample(uni, r.randrange(1, n + 1))))
+        if r.random() < 0.3:
+            sets.append(list(uni))
+        sets = [list(x) for x in {tuple(s) for s in sets}]
+        r.shuffle(sets)
+        inputs.append((sets, uni))
+    ctx.tick("cover_inputs", len(inputs))
+    lres = pvlib.lean([{"op": "gate.cover", "sets": s, "universe": u} for s, u in inputs])
+    B = 200
+    reqs = [{"op": "cover", "inputs": inputs[i:i + B], "hash_seed": hs, "timeout": 120, "base": i}
+            for hs in ([0, 1] if quick else [0, 1, 2, 3]) for i in range(0, len(inputs), B)]
+    reps = pvlib.run_requests(reqs)
+    k = 0
+    for rq, rp in zip(reqs, reps):
+        if "error" in rp:
+            ctx.broken_ties.append(f"cover worker failed: {rp['error'][:120]}")
+            continue
+        base = rq["base"]
+        for j, got in enumerate(rp["results"]):
+            sets, uni = inputs[base + j]
+            lr = lres[base + j]
+            inp = {"sets": sets, "universe": uni, "hash_seed": rq["hash_seed"]}
+            if isinstance(got, dict):
+                ctx.violation(f"get_weighted_cover raised {got['error']}", {"input": inp}, key=("cover", sets, uni))
+                continue
+            ctx.tick("cover_none" if got is None else "cover_found")
+            # what cover_spec states, checked on the implementation's own answer
+            if got is not None:
+                es = [set(x) for x in sets if set(x) != set(uni)]
+                cov = [set(x) for x in got]
+                bad = None
+                if any(c not in [set(x) for x in sets] for c in cov):
+                    bad = "a member that is not an observed set"
+                elif any(a & b for i, a in enumerate(cov) for b in cov[i + 1:]):
+                    bad = "overlapping members"
+                elif set().union(*cov) < set(uni):
+                    bad = "a universe that is not covered"
+                elif any(set().union(*([c for c in cov if c <= e] or [set()])) != e for e in es):
+                    bad = "an observed set that is not the union of the members it contains"
+                if bad:
+                    ctx.violation(f"get_weighted_cover returned a cover with {bad}: {got}", {"input": inp, "cover": got},
+                                  key=("cover", sets, uni))
+                    continue
+            if "error" in lr:
+                ctx.broken_ties.append(f"model driver: {lr['error']}")
+                continue
+            outs = [None if o is None else sorted(sorted(x) for x in o) for o in lr["outcomes"]]
+            if got not in outs:
+                ctx.violation("correspondence: get_weighted_cover's answer is not among the outcomes of the Lean model",
+                              {"input": inp, "impl": got, "model": outs[:6]}, key=("corrcover", sets, uni), concrete=False)
+        k += 1
 
 
 def run(ctx: Ctx) -> None:
@@ -30,6 +109,7 @@ def run(ctx: Ctx) -> None:
     if ctx.tier == "thorough":
         ctx.leanchecker(["O2P.Props.C06"])
     quick = ctx.tier == "quick"
+    cover_part(ctx, quick)
     sizes = [2, 3, 4, 5] if quick else [2, 3, 4, 5, 6]
     doms = pvlib.lean([{"op": "gate.domain", "n": n} for n in sizes], timeout=3600)
     items: list[dict[str, Any]] = []
